@@ -124,6 +124,19 @@ def case(ctx, i, rng):
     cplx = rng.random() < 0.3
     el = random_element(rng, cell, gdim, rng.choice([0, 1, 1, 2]))
     mesh = E.mesh_for(cell, gdim)
+    if rng.random() < 0.25:
+        # history: the very same element object was used before on a mesh of the same cell type with another geometric
+        # dimension (the physical value shape of Piola-mapped components depends on the mesh, not only on the element)
+        others = [g_ for (c_, g_) in CELLS if c_ == cell and g_ != gdim]
+        if others:
+            try:
+                V0 = ufl.FunctionSpace(E.mesh_for(cell, rng.choice(others)), el)
+                f0 = ufl.Coefficient(V0)
+                _ = f0.ufl_shape, V0.value_shape
+                apply_function_pullbacks(f0)
+                ctx.count("element_used_before_on_another_mesh")
+            except Exception:
+                ctx.count("prior_use_rejected")
     try:
         V = ufl.FunctionSpace(mesh, el)
         kind = rng.choice(["coefficient", "coefficient", "argument"])
@@ -148,6 +161,18 @@ def case(ctx, i, rng):
         wrapper = "bare"
     itype = rng.choice(["cell", "cell", "exterior_facet"])
     worlds = oracle.worlds_for(rng, cell, gdim, itype, cplx, n=3)
+    # the declared shape of the form argument is the physical value shape implied by the element composition ON THIS MESH
+    try:
+        oracle.S(f, worlds[0])
+        ctx.count("declared_shape_checks")
+    except oracle.StructureMismatch as ex:
+        if "form argument value shape" in str(ex):
+            ctx.violation(f"C08/declared-value-shape/{el.vf_kind}" + ("/manifold" if gdim > E.TD[cell] else ""),
+                          f"the form argument declares the shape {tuple(f.ufl_shape)} (function space value_shape {tuple(V.value_shape)}), the element "
+                          f"composition on this {cell} mesh in {gdim}D implies another: {ex}", {"element": repr(el)[:400]})
+            return
+    except Exception:
+        pass
     verdict, out = check_pass(ctx, "C08", "apply_function_pullbacks", e, apply_function_pullbacks, worlds, localise=False,
                               key_override=el.vf_kind)
     if verdict == "held":
